@@ -178,7 +178,8 @@ def s2(prog, ctx, fns, exc):
                 if lit.kind == "truth" and lit.pol and (lit.atom in ("*" + X, X + "[0]", "strlen(%s)" % X) or
                                                         (lit.node.k == "DeclRefExpr" and _is_len_of(lit.node, X, f, rd))):
                     return True
-                if lit.kind == "lt" and lit.pol and lit.lhs.const_value() == 0 and (render(lit.rhs) == "strlen(%s)" % X or _is_len_of(lit.rhs.strip(), X, f, rd)):
+                if lit.kind == "lt" and lit.pol and isinstance(lit.lhs.const_value(), int) and lit.lhs.const_value() >= 0 and (
+                        render(lit.rhs) == "strlen(%s)" % X or _is_len_of(lit.rhs.strip(), X, f, rd)):
                     return True
                 if lit.kind == "eq" and lit.pol:
                     for a, b2 in ((lit.lhs, lit.rhs), (lit.rhs, lit.lhs)):
@@ -382,7 +383,7 @@ def _exception_holds(prog, f, key):
             if lit is None:
                 return False
             if lit.kind == "lt":
-                return lit.pol and lit.lhs.const_value() == 0 and is_len(lit.rhs)
+                return lit.pol and isinstance(lit.lhs.const_value(), int) and lit.lhs.const_value() >= 0 and is_len(lit.rhs)     # c < strlen(s), c >= 0
             if lit.kind == "eq":
                 return (not lit.pol) and ((lit.lhs.const_value() == 0 and is_len(lit.rhs)) or (lit.rhs.const_value() == 0 and is_len(lit.lhs)))
             return lit.kind == "truth" and lit.pol and is_len(lit.node)
